@@ -108,7 +108,7 @@ def t_near(h):
 
 def t_entry(side):
     def t(h):
-        w = common.futures_world(h, mode='cross')
+        w = common.futures_world(h, mode=common.any_mode(h))
         cur = h.real('cur')
         h.assume(ops.compare('>', cur, 0))
         rows = rows2(h, 'e')
@@ -139,7 +139,7 @@ def t_entry(side):
 
 def t_exit(ptype, is_open=True):
     def t(h):
-        w = common.futures_world(h, mode='cross')
+        w = common.futures_world(h, mode=common.any_mode(h))
         pos = w.positions['BTC-USDT']
         cur = h.real('cur')
         h.assume(ops.compare('>', cur, 0))
@@ -211,7 +211,7 @@ def exit_order(h, via, status='ACTIVE', oid='x'):
 def t_modify(kind, changed, nrows, orows=None):
     """declared stop-loss / take-profit differs from the remembered one -> cancel tagged orders first, then one order per row"""
     def t(h):
-        w = common.futures_world(h, mode='cross')
+        w = common.futures_world(h, mode=common.any_mode(h))
         pos = w.positions['BTC-USDT']
         cur = h.real('cur')
         h.assume(ops.compare('>', cur, 0))
@@ -279,7 +279,7 @@ def t_selectors(ptype, n_orders=3):
     entry orders = active, not cancelled orders on the position's side (every submitted order while flat);
     (active) exit orders = (active) not cancelled orders on the closing side, none while flat"""
     def t(h):
-        w = common.futures_world(h, mode='cross')
+        w = common.futures_world(h, mode=common.any_mode(h))
         pos = w.positions['BTC-USDT']
         if ptype != 'close':
             common.open_position(h, pos, ptype)
@@ -334,7 +334,7 @@ def t_selectors(ptype, n_orders=3):
 def t_reset(h):
     """Strategy._reset: every declaration AND every remembered snapshot is cleared, so that the next trade's exits are compared
     with nothing (a stale snapshot equal to the new declaration would suppress the submission of the new exit orders)"""
-    w = common.futures_world(h, mode='cross')
+    w = common.futures_world(h, mode=common.any_mode(h))
     cur = h.real('cur', 0)
     s, api = strategy(h, w, cur)
     for name in ('buy', '_buy', 'sell', '_sell', 'stop_loss', '_stop_loss', 'take_profit', '_take_profit'):
@@ -357,7 +357,7 @@ def t_inplace_edit(kind):
     """a declaration held as a numpy array and edited IN PLACE is a modification like any other: the remembered snapshot
     must be a copy, not the declaration object itself"""
     def t(h):
-        w = common.futures_world(h, mode='cross')
+        w = common.futures_world(h, mode=common.any_mode(h))
         pos = w.positions['BTC-USDT']
         cur = h.real('cur')
         h.assume(ops.compare('>', cur, 0))
@@ -401,7 +401,7 @@ def t_inplace_edit(kind):
 
 
 def t_on_close(h):
-    w = common.futures_world(h, mode='cross')
+    w = common.futures_world(h, mode=common.any_mode(h))
     cur = h.real('cur', 0)
     s, api = strategy(h, w, cur)
     trace = []
@@ -414,7 +414,7 @@ def t_on_close(h):
 
 
 def t_execute_cancel(h):
-    w = common.futures_world(h, mode='cross')
+    w = common.futures_world(h, mode=common.any_mode(h))
     cur = h.real('cur', 0)
     s, api = strategy(h, w, cur)
     trace = []
@@ -440,7 +440,7 @@ def t_execute_cancel(h):
 
 def t_check(n_entries, closed):
     def t(h):
-        w = common.futures_world(h, mode='cross')
+        w = common.futures_world(h, mode=common.any_mode(h))
         cur = h.real('cur', 0)
         s, api = strategy(h, w, cur)
         if not closed:
@@ -501,7 +501,7 @@ def t_cancel_all(h):
 
 def t_liquidate(profit):
     def t(h):
-        w = common.futures_world(h, mode='cross')
+        w = common.futures_world(h, mode=common.any_mode(h))
         pos = w.positions['BTC-USDT']
         cur = h.real('cur')
         h.assume(ops.compare('>', cur, 0))
